@@ -458,9 +458,9 @@ func (h *H) inputConditions(req request) {
 
 // finishStats writes the distribution and the condition coverage into the report
 func (h *H) finishStats() {
-	h.c.Rep.Extra["input_distribution"] = h.stats
+	h.c.Rep.Extra["decoder_input_distribution"] = h.stats
 	cov := map[string]map[string]int{}
-	var constant []string
+	constant := []string{}
 	for k, p := range h.conds {
 		cov[k] = map[string]int{"true": p[0], "false": p[1]}
 		if p[0] == 0 || p[1] == 0 {
@@ -473,5 +473,76 @@ func (h *H) finishStats() {
 	if len(constant) > 0 {
 		h.c.Rep.Notes = append(h.c.Rep.Notes, "GENERATOR: comparisons that took only one outcome in this run: "+strings.Join(constant, "; "))
 		fmt.Println("harness C15: constant conditions:", strings.Join(constant, "; "))
+	}
+}
+
+// ---------------------------------------------------------------- boundary families of the comparisons on parsed fields
+
+// The comparisons a decoder makes between a length field it has just read and
+// the bytes left in its reader cannot be evaluated on the raw input without
+// parsing; these families are built so that the outcome is known by
+// construction: field == bytes left, one below, one above.
+func (h *H) boundaryFamilies(acmFiles map[string][]byte) {
+	// parsePolicyElementCustom: size < 16+16 ; size-16-16 > buf.Len()
+	for _, data := range []int{0, 8, 100} {
+		for d := -1; d <= 1; d++ {
+			size := 32 + data + d
+			b := polData(1, list1(0, 100, eltCustom(uint32(size), data), nil))
+			h.cond("parsePolicyElementCustom/Size < 32", size < 32)
+			h.cond("parsePolicyElementCustom/data length > bytes left", size-32 > data)
+			h.cond("parsePolicyElementCustom/data length == bytes left", size-32 == data)
+			h.cond("parsePolicyElementCustom/data length == bytes left - 1", size-32 == data-1)
+			h.run("ParsePolicyData/boundary", dPolicyData, nil, b, nil, fmt.Sprintf("custom element Size=%d with %d data bytes left", size, data))
+		}
+	}
+	// parsePolicyList2: uint64(count) > uint64(buf.Len()); 16 bytes follow the count
+	bad := cat(le32(12), le32(99), le32(0))
+	for _, rem := range []int{0, 16} {
+		for d := -1; d <= 1; d++ {
+			cnt := rem + d
+			if cnt < 0 {
+				continue
+			}
+			tail := eltMLE(16, 0, 0)[:rem]
+			b := polData(1, cat(le16(0x100), []byte{0, 0}, le32(100), bad), list2(uint32(cnt), tail))
+			h.cond("parsePolicyList2/count > bytes left", cnt > rem)
+			h.cond("parsePolicyList2/count == bytes left", cnt == rem)
+			h.cond("parsePolicyList2/count == bytes left + 1", cnt == rem+1)
+			h.run("ParsePolicyData/boundary", dPolicyData, nil, b, nil, fmt.Sprintf("list-2 count=%d with %d bytes left", cnt, rem))
+		}
+	}
+	// parseLCPSignature / MLE / SBIOS / PCONF counts against what is there: count = entries present, +1
+	for d := 0; d <= 1; d++ {
+		h.run("ParsePolicyData/boundary", dPolicyData, nil, polData(1, list1(0, 100, eltMLE(100, 2, uint16(2+d)), nil)), nil, fmt.Sprintf("MLE element, 2 hashes present, NumHashes=%d", 2+d))
+		h.run("ParsePolicyData/boundary", dPolicyData, nil, polData(1, list1(0, 100, eltSBIOS(100, 0, 2, uint16(2+d)), nil)), nil, fmt.Sprintf("SBIOS element, 2 hashes present, NumHashes=%d", 2+d))
+		h.run("ParsePolicyData/boundary", dPolicyData, nil, polData(1, list1(0, 100, eltPCONF(100, 2, uint16(2+d), 3), nil)), nil, fmt.Sprintf("PCONF element, 2 infos present, NumPCRInfos=%d", 2+d))
+		h.run("ParsePolicyData/boundary", dPolicyData, nil, polData(1, list1(1, 0, nil, lcpSig(uint16(8+d), 8))), nil, fmt.Sprintf("signature, 8+8 bytes present, PubkeySize=%d", 8+d))
+		h.cond("LCP list counts/count == entries present", d == 0)
+	}
+	// ParseACMInfo: uint64(Count)*16 > uint64(buf.Len()) for the chipset list, *24 for the processor list:
+	// modules cut so that exactly two entries follow the count field
+	for _, name := range sortedKeys(acmFiles) {
+		full := acmFiles[name]
+		if len(full) < 0x4c0+48 {
+			continue
+		}
+		for _, f := range []struct {
+			what    string
+			infoOff int
+			entry   int
+		}{{"chipset", 0x4c0 + 20, 16}, {"processor", 0x4c0 + 40, 24}} {
+			at := int(binary.LittleEndian.Uint32(full[f.infoOff:]))
+			total := at + 4 + 2*f.entry
+			if at < 0x4c0 || total > len(full) || total%4 != 0 {
+				continue
+			}
+			for cnt := 1; cnt <= 3; cnt++ {
+				m := smallACM(full, total)
+				binary.LittleEndian.PutUint32(m[at:], uint32(cnt))
+				h.cond("ParseACMInfo/"+f.what+" Count*size > bytes left", cnt > 2)
+				h.cond("ParseACMInfo/"+f.what+" Count*size == bytes left", cnt == 2)
+				h.run("ParseACMInfo/boundary", dACMInfo, nil, m, nil, fmt.Sprintf("%s cut to %d bytes: %s list Count=%d with %d bytes left", name, total, f.what, cnt, 2*f.entry))
+			}
+		}
 	}
 }
